@@ -29,8 +29,16 @@ def gcc_file(name):
 def py_build(cfg):
     """returns dict(dir, moddir, env) with the environment needed to import the freshly built imath module
     into the stock /usr/bin/python3 (sanitizer runtimes preloaded)."""
-    with _lock:      # workload threads ask for the build concurrently: build once
-        return _py_build_locked(cfg)
+    # workload threads AND separate processes (parallel parts, developer helpers) ask for the build concurrently:
+    # build once - a second 16-job build of the same tree costs ~16 GB of compiler memory
+    import fcntl
+    os.makedirs(BUILD, exist_ok=True)
+    with _lock, open(os.path.join(BUILD, ".py-%s.lock" % cfg), "w") as lf:
+        fcntl.flock(lf, fcntl.LOCK_EX)
+        try:
+            return _py_build_locked(cfg)
+        finally:
+            fcntl.flock(lf, fcntl.LOCK_UN)
 
 
 def _py_build_locked(cfg):
